@@ -51,6 +51,9 @@ fn main() {
     if id == "SELFTEST" {
         std::process::exit(props::selftest::run(&cfg));
     }
+    if id == "C17MIRI" {
+        std::process::exit(props::c17::miri_scenario());
+    }
     let mut report = rt::Report::new();
     let meta = match props::dispatch(&id, &cfg, &mut report) {
         Some(m) => m,
